@@ -525,6 +525,49 @@ def c15_others(rep, d, inputs, tier):
     rep.sample("kmertools ctr -i in5.fa -o out -k 21 --acgt -t 16: same k-mers and counts as the numeric output, no temp file left")
 
 
+def c15_bin_sweep(rep, d, tier):
+    """-s means bins of exactly that width, for every width in a contiguous range: the input makes k-mer
+    multiplicities fall exactly on bin edges (s, 2s, 3s) and just below them"""
+    k = 15
+    x, y, z, u = b"ACGGTCAAGTCCATG", b"TTGACCGGATACGCA", b"GGCATTACGATCCGA", b"CATGCCGATTAGGCT"
+    smax = 1000 if tier == "thorough" else 210
+
+    def do(s):
+        recs = [x] * s + [y] * (2 * s) + [z] * (3 * s) + [u] * (2 * s - 1)
+        wd = fresh_dir("bins")
+        fa = os.path.join(wd, "in.fa")
+        with open(fa, "wb") as f:
+            for i, r in enumerate(recs):
+                f.write(b">r%d\n%s\n" % (i, r))
+        out = os.path.join(wd, "out")
+        args = ["cov", "-i", fa, "-o", out, "-k", str(k), "-s", str(s), "-c", "5", "--counts", "-t", "2"]
+        rc, so, err, to = cli(args, timeout=60)
+        rep.ev(1, 1)
+        a = {"s": s}
+        if to or rc != 0:
+            rep.violation("accepted-options-failed", 5, "kmertools %s: exit %s stderr %r" % (" ".join(args), rc, err[-300:]), "c15_bins", a)
+        else:
+            rows = lines_of(read(os.path.join(out, "kmers.vectors"))) or []
+            want = {x: 1, y: 2, z: 3, u: 1}
+            bad = None
+            if len(rows) != len(recs):
+                bad = "%d rows for %d records" % (len(rows), len(recs))
+            else:
+                for i, (row, r) in enumerate(zip(rows, recs)):
+                    exp = b" ".join(b"1" if j == want[r] else b"0" for j in range(5))
+                    if row != exp:
+                        bad = "row %d (a record whose only %d-mer occurs %d times in the input) is %r; with bins of width %d it belongs to bin %d: %r" % (
+                            i, k, recs.count(r), row, s, want[r], exp)
+                        break
+            if bad:
+                rep.violation("bin-size-option", 5, "kmertools %s: %s" % (" ".join(args[:1] + args[5:]), bad), "c15_bins", a)
+        shutil.rmtree(wd, ignore_errors=True)
+
+    pmap(do, range(5, smax + 1))
+    rep.count("cases.bin_size_sweep", smax - 4)
+    rep.sample("kmertools cov -k 15 -s 49 -c 5 --counts on 49 x X, 98 x Y, 147 x Z, 97 x U (single-window records): rows of X in bin 1, Y in bin 2, Z in bin 3, U in bin 1; every -s from 5 to %d" % smax)
+
+
 def m2s_canon(data):
     if data is None:
         return None
@@ -557,6 +600,7 @@ def c15(tier):
     c15_oligo(rep, d, inputs, tier)
     c15_refusals(rep, d, inputs)
     c15_others(rep, d, inputs, tier)
+    c15_bin_sweep(rep, d, tier)
     rep.note("C15: release binary built from /repo with the guard off; every lattice point is one process run; library results come from `ktmc lib` (same crates, explicit setters)")
     return rep.done()
 
